@@ -33,6 +33,8 @@ func init() {
 			{ID: "C11.R12", Text: "the reopen uses the most recent membership: every bus-fed membership implementation records an announcement first and unconditionally (hand-over to a waiting GetInfo only in a goroutine) and GetInfo only reads", Run: latestInfo},
 			{ID: "C11.R13", Text: "the rebalance decision, exhaustively over balancing × timer armed × Stop()'s answer: only the timer is touched ⇔ balancing ∧ timer≠nil (Reset ⇔ Stop()=true, else re-arm); otherwise lock, start callbacks, Close(false) and balancing←true ⇔ ¬balancing, exactly one AfterFunc", Run: rebalanceDecision},
 			{ID: "C11.R14", Text: "the first numbering reaches the stream: hand-over to a waiting GetInfo ⇔ first announcement (same rule as C10.R17)", Run: firstInfoHandOver},
+			{ID: "C11.R15", Text: "the reopen covers the range of the latest membership and nothing else: one opener per element of the list VBucketDiscovery.Get returned, not per loaded checkpoint (same rule as C15.R3)", Run: c15r3},
+			{ID: "C11.R16", Text: "the reopen resumes from the stored checkpoints: Load builds each position from the loaded document's own fields and never replaces or modifies a loaded document (same rule as C02.R2)", Run: c02r2},
 			{ID: "C11.R6", Text: "a repeated membership causes no notification (same rule as C10.R1)", Run: c10r1},
 			{ID: "C11.R7", Text: "the bus listener subscribed by the client calls Stream.Rebalance on every path (no notification is dropped while closed or reopening)", Run: c11r7},
 			{ID: "C11.R9", Text: "notifications are handled one at a time: the debounce test of Rebalance reads the balancing state before taking the lock, so every listener that reaches Stream.Rebalance is subscribed serialised (SubscribeAsync(…, transactional=true) or synchronous Subscribe)", Run: c11r9},
